@@ -2123,7 +2123,18 @@ func (p *parser) parseCallOrConversion(fun ast.Expr, isCmd bool) *ast.CallExpr {
 	p.exprLev--
 	var noParenEnd token.Pos
 	if isCmd {
-		noParenEnd = p.pos
+		// end of the command call = end of its last argument (not the position of the next token,
+		// which would include trailing blanks and comments)
+		switch n := len(list); {
+		case rparen != token.NoPos: // tuple form: fn (a, b)
+			noParenEnd = rparen + 1
+		case ellipsis != token.NoPos:
+			noParenEnd = ellipsis + 3
+		case n > 0:
+			noParenEnd = list[n-1].End()
+		default:
+			noParenEnd = p.pos
+		}
 	} else if rparen == token.NoPos {
 		rparen = p.expectClosing(token.RPAREN, "argument list")
 	}
